@@ -473,6 +473,12 @@ type FunctionLiteral struct {
 }
 
 func (fl FunctionLiteral) lambdaPrint(out *PrintState) *PrintState {
+	// A lambda that is called, or is the operand of a tighter binding operator,
+	// needs to be in parentheses: (x => x)(1), a + (x => x).
+	outerParen := out.ExpressionPrecedence > LAMBDA
+	if outerParen {
+		out.Print("(")
+	}
 	needParen := len(fl.Parameters) != 1
 	if needParen {
 		out.Print("(")
@@ -487,6 +493,9 @@ func (fl FunctionLiteral) lambdaPrint(out *PrintState) *PrintState {
 		out.Print(" => ")
 	}
 	fl.Body.PrettyPrint(out)
+	if outerParen {
+		out.Print(")")
+	}
 	return out
 }
 
